@@ -156,3 +156,12 @@ Proof.
   split; [split; [cbn; intuition lia|split; [cbn; unfold SUBST; intuition lia|eexists; vm_compute; reflexivity]]|].
   vm_compute. repeat split; reflexivity.
 Qed.
+
+(* member names: .b / .\u00E9 under ASCII / ["a b"] / ["𠮷"] (never an ES5-and-ESNext identifier) *)
+Example member_ex :
+  print_dot_name (mkQ false true true 0 false true) 4 [98] = Some [46; 98]
+  /\ print_dot_name (mkQ true true true 0 false true) 4 [233] = Some [46; 92; 117; 48; 48; 69; 57]
+  /\ print_dot_name (mkQ false true true 0 false true) 4 [97; 32; 98] = Some [91; 34; 97; 32; 98; 34; 93]
+  /\ print_dot_name (mkQ true false true 0 false true) 4 [134071] = Some [91; 34; 92; 117; 68; 56; 52; 50; 92; 117; 68; 70; 66; 55; 34; 93]
+  /\ member_key [91; 34; 92; 117; 68; 56; 52; 50; 92; 117; 68; 70; 66; 55; 34; 93] = Some [55362; 57271].
+Proof. vm_compute. repeat split; reflexivity. Qed.
